@@ -570,3 +570,17 @@ F("K61", "C12", ENS, "  while size * size <= n:", "  while size * size < n:", "R
 T("K62", "C12", ENS, "  while size * size <= n:", "  while n >= size * size:", "ladder condition written the other way round")
 T("K63", "C12", ENS, "  while size * size <= n:", "  while size * size < n + 1:", "strict comparison against n + 1")
 F("K64", "C12", ENS, "    matrix = util.SplitSequence(truncated, size * size, size)", "    matrix = util.SplitSequence(truncated, size * size, 2 * size)", "R-C12-LADDER", "rows twice as long")
+
+# ---------------------------------------------------------------------------------- C12 histogram shapes, semantic version (round 2)
+T("K70", "C12", NS, "  v = [0] * (k + 1)\n  for i in range(num_matrices):\n    mat = rows[i * r:(i + 1) * r]\n    rank = util.BinaryMatrixRank(mat)\n    v[min(k, r - rank)] += 1\n  pi = RankDistribution(r, c, k)\n  p_value = ChiSquare(v, pi, k)",
+  "  expected = RankDistribution(r, c, k)\n  counts = [0] * (1 + k)\n  for i in range(num_matrices):\n    deficiency = r - util.BinaryMatrixRank(rows[i * r:(i + 1) * r])\n    cls = deficiency if deficiency < k else k\n    counts[cls] = counts[cls] + 1\n  p_value = ChiSquare(counts, expected, k)",
+  "rank histogram with renamed variables, reordered statements, conditional expression instead of min") 
+F("K71", "C12", NS, "    idx = max(0, min(v_upper, x) - v_lower)", "    idx = max(0, min(v_upper, x) - v_lower - 1)", "R-C12-CONSIST", "longest-run class shifted by one")
+F("K72", "C12", NS, "  v = [0] * (k + 1)\n  for i in range(num_matrices):", "  v = [0] * (k + 2)\n  for i in range(num_matrices):", "R-C12-CONSIST", "one class too many in the rank histogram")
+T("K73", "C12", NS, "    elif length >= median + 3:", "    elif length > median + 3:", "linear-complexity upper boundary strict: length = median + 3 then takes the middle branch, index 6 all the same")
+T("K73b", "C12", NS, "    elif length >= median + 3:", "    elif length >= median + 4:", "upper class one later: the middle branch gives 6 for median + 3 as well")
+F("K73c", "C12", NS, "    elif length >= median + 3:", "    elif length >= median + 2:", "R-C12-CONSIST", "linear-complexity upper class starts one early (median + 2 lumped into class 6)")
+F("K74", "C12", NS, "      return precomputed[:k] + [sum(precomputed[k:])]", "      return precomputed[:k] + [sum(precomputed[k + 1:])]", "R-C12-CONSIST", "lumped tail starts one class late")
+F("K75", "C12", NS, "    v[min(k, cnt)] += 1\n  pi = OverlappingTemplateMatchingDistribution(n, m, k)", "    v[min(k, cnt)] += 1\n  pi = OverlappingTemplateMatchingDistribution(n, m, k - 1)", "R-C12-CONSIST", "table for another number of classes")
+T("K76", "C12", NS, "  for p in params[::-1]:\n    if n >= p[0]:", "  for p in reversed(params):\n    if not n < p[0]:", "ladder via reversed() and a negated comparison")
+F("K77", "C12", XS, "    if k >= len(ASYMPTOTIC_RANK_SF):", "    if k > len(ASYMPTOTIC_RANK_SF):", "R-C12-CONSIST", "deficiency equal to the table length indexes past the end")
